@@ -163,9 +163,22 @@ theorem generated_names (s : String) (m : Month) (w : Weekday) :
     ∧ Gen.monthName m = m.name ∧ Gen.monthShortName m = m.shortName
     ∧ Gen.weekdayName w = w.name ∧ Gen.weekdayShortName w = w.shortName
     ∧ Gen.monthNumber m = m.number ∧ Gen.weekdayNumber w = w.number
-    ∧ Gen.weekdayTryFromConst = Weekday.ofInt? ∧ (∀ j, Gen.weekdayForJdn j = Chk.weekdayForJdn j) :=
+    ∧ Gen.weekdayTryFromConst = Weekday.ofInt? ∧ (∀ j, Gen.weekdayForJdn j = Chk.weekdayForJdn j)
+    ∧ Gen.monthTryFromI8 = Month.ofInt? ∧ Gen.monthTryFromU8 = Month.ofInt? ∧ Gen.monthTryFromI32 = Month.ofInt?
+    ∧ Gen.monthTryFromU32 = Month.ofInt? ∧ Gen.monthTryFromI64 = Month.ofInt? ∧ Gen.monthTryFromU64 = Month.ofInt?
+    ∧ Gen.monthTryFromI128 = Month.ofInt? ∧ Gen.monthTryFromU128 = Month.ofInt? ∧ Gen.monthTryFromI16 = Month.ofInt?
+    ∧ Gen.monthTryFromU16 = Month.ofInt? ∧ Gen.monthTryFromIsize = Month.ofInt? ∧ Gen.monthTryFromUsize = Month.ofInt?
+    ∧ (∀ v, Gen.weekdayTryFromI8 v = Weekday.ofInt? v ∧ Gen.weekdayTryFromU8 v = Weekday.ofInt? v
+        ∧ Gen.weekdayTryFromI16 v = Weekday.ofInt? v ∧ Gen.weekdayTryFromU16 v = Weekday.ofInt? v
+        ∧ Gen.weekdayTryFromI32 v = Weekday.ofInt? v ∧ Gen.weekdayTryFromU32 v = Weekday.ofInt? v
+        ∧ Gen.weekdayTryFromI64 v = Weekday.ofInt? v ∧ Gen.weekdayTryFromU64 v = Weekday.ofInt? v
+        ∧ Gen.weekdayTryFromI128 v = Weekday.ofInt? v ∧ Gen.weekdayTryFromU128 v = Weekday.ofInt? v
+        ∧ Gen.weekdayTryFromIsize v = Weekday.ofInt? v ∧ Gen.weekdayTryFromUsize v = Weekday.ofInt? v) :=
   ⟨Gen.monthFromStr_eq s, Gen.weekdayFromStr_eq s, Gen.monthName_eq m, Gen.monthShortName_eq m,
    Gen.weekdayName_eq w, Gen.weekdayShortName_eq w, Gen.monthNumber_eq m, Gen.weekdayNumber_eq w,
-   Gen.weekdayTryFromConst_eq, Gen.weekdayForJdn_eq⟩
+   Gen.weekdayTryFromConst_eq, Gen.weekdayForJdn_eq, rfl, rfl, rfl, rfl, rfl, rfl, rfl, rfl, rfl, rfl, rfl, rfl,
+   fun v => ⟨Gen.weekdayTryFrom_aux v, Gen.weekdayTryFrom_aux v, Gen.weekdayTryFrom_aux v, Gen.weekdayTryFrom_aux v,
+     Gen.weekdayTryFrom_aux v, Gen.weekdayTryFrom_aux v, Gen.weekdayTryFrom_aux v, Gen.weekdayTryFrom_aux v,
+     Gen.weekdayTryFrom_aux v, Gen.weekdayTryFrom_aux v, Gen.weekdayTryFrom_aux v, Gen.weekdayTryFrom_aux v⟩⟩
 
 end JV.C15
